@@ -9,6 +9,30 @@ NOTE = ("Trusted: Coq 8.16.1 kernel (vm_compute, no native_compute), extraction 
         "to /repo is the differential correspondence run on every check (agreement on the generated cases, not for all inputs). ")
 
 CLAIMED = {
+    "C12": dict(
+        text="PARTIAL BY NATURE. Theorems: for ANY two scripts of API calls with disjoint footprints (own arguments/receivers, "
+             "shared read-only configuration) and EVERY interleaving, each goroutine's results equal those of running alone "
+             "and the configuration is unchanged (generic over all calls modelled as read-set/write-set/function records); "
+             "channel fan-in with as many receives as senders is deadlock-free for every capacity incl. 0, terminates within "
+             "2k steps and delivers every value exactly once (and the surplus-sender failure mode is exhibited); the "
+             "spawn/WaitGroup join returns only after all tasks and never gets stuck; the index ranges of one Execute call are "
+             "pairwise disjoint. NOT proved: absence of data races in the Go memory model and real scheduling - observed by "
+             "running the -race harness (G in {2,4,16,64} goroutines x GOMAXPROCS {1,2,4,16}, shared config, every result "
+             "compared with the sequential model, watchdog for hangs).",
+        note="Data races and scheduler behaviour are observed with the Go race detector on explored schedules only.",
+        tech="Coq proof (simulation over interleavings, transition-system invariants) + race-detector runs compared with the sequential model", ref="DESIGN.md 6.12"),
+    "C13": dict(
+        text="Theorems (generic over every call modelled as read-set / write-set / function of configuration and read values): "
+             "one-step frame (configuration and all objects outside the write set unchanged, no object created/destroyed), "
+             "lifted by induction to every finite history; the results of any script depend only on the configuration and the "
+             "objects read (independence from preceding calls). The permitted re-normalisation keeps elements Equal with the "
+             "same Bytes (C19). That every REAL call stays within its declared write set is established by the correspondence: "
+             "random histories of 5..120 calls over all API families in one process with deep fingerprints of config, package "
+             "variables, tables and every argument before/after each call, a probe call replayed at random positions, and "
+             "every result compared with the model's history-free result. F1 (decoder reversing its input) was found this way "
+             "and fixed.",
+        note="The classification of each real call's write set is checked, not proved.",
+        tech="Coq proof (frame lemma + induction over histories) + fingerprinting correspondence on histories", ref="DESIGN.md 6.13"),
     "C14": dict(
         text="Theorems: the buffered transcript machine refines the one-string hash-chain specification for every op "
              "sequence and every hash function; the hash input of each challenge is characterised; fixed-width "
